@@ -91,10 +91,23 @@ def run(ctx, prop="C08"):
         tr, get, cmdmap = pipeline.run_session(ctx, fzf, sid, lines, sched, steps, race_log=race, reload_scheds=rescheds)
         evs, keys, cfgs = pipeline.project(tr, get, sid, cmdmap)
         table = {}
+        rawids = {}
         for (q, n, srt, ci) in keys:
             inp, excluded, nth = cfgs[ci] if ci < len(cfgs) else (-1, (), "")
             src = lines if inp == -1 else relines[inp]
-            table[pipeline.okey(sid, q, n, srt, ci)] = pipeline.oracle(fzf_oracle, src, q, n, srt, excluded=excluded, nth=nth)
+            ids = pipeline.oracle(fzf_oracle, src, q, n, srt, excluded=excluded, nth=nth, raw=True)
+            rawids[(q, n, srt, ci)] = ids
+            table[pipeline.okey(sid, q, n, srt, ci)] = pipeline.fnv_res(ids)
+        # bounds for the deviation StaleChunkCache: a result mixed chunk-wise from two configurations lies between their
+        # intersection and their union
+        for e in evs:
+            if e["ev"] == "reset" and e["pcfg"] >= 0:
+                a = rawids.get((e["q"], e["count"], e["sort"], e["cfg"]))
+                b = rawids.get((e["q"], e["count"], e["sort"], e["pcfg"]))
+                if a is not None and b is not None:
+                    sa, sb = set(a), set(b)
+                    table["B|" + pipeline.okey(sid, e["q"], e["count"], e["sort"], e["cfg"]) + "|%d" % e["pcfg"]] = \
+                        [len(sa & sb), len(sa | sb)] + sorted(sa | sb)[:200] + [-1] + sorted(sa & sb)[:200]
         return sid, evs, table
     results = {}
     with ThreadPoolExecutor(max_workers=6) as ex:
